@@ -1,6 +1,18 @@
 (* C11 — bit-level buffer operations equal a naive bit-vector model (statements pinned here).
-   This file only pins statements; proofs live in Bits/Proofs.v. *)
-From A1 Require Import Bits.Naive Bits.Copy Bits.Proofs.
+   This file only pins statements; proofs live in Bits/Proofs.v and Bits/BufferProofs.v.
+   Scope notes. (1) The property speaks of buffers reached by operations from an empty one;
+   a buffer built by from_bits / from_bits_with_position from a vector that is longer than
+   ceil(bit_len/8) or has set bits behind bit_len is a caller-supplied state: such buffers are
+   part of the differential tie (model vs crate, every operation) but no theorem or oracle
+   class speaks about "exactly ceil(bit_len/8) bytes, zero padding" for them.
+   (2) with_read_position_at(pos, ..) debug-asserts pos < write_position although its doc
+   comment says positions "beyond" the write position panic (pos = write_position panics in a
+   debug build): an API documentation nit, modelled, outside C11's statement.
+   (3) Two public operations do leave the invariant on the unchanged crate and are listed as
+   known findings: a write under with_write_position_at that runs past the old end (F11-1,
+   C11_refuted_scope_write_past_end) and ensure_can_write_additional_bits called on its own
+   (F11-2; it is not an operation of [bop]). *)
+From A1 Require Import Bits.Naive Bits.Copy Bits.Proofs Bits.Buffer Bits.BufferProofs.
 Local Open Scope N_scope.
 
 Theorem C11_bitwise_exact : forall m src sp dst dp len,
@@ -130,6 +142,130 @@ Theorem C11_buffer_refines :
         = firstn (N.to_nat (bb_wpos b)) (bits_of_bytes (bb_buf b)) ++ [bit]).
 Proof. exact buffer_refines. Qed.
 
+(* The whole public surface of BitBuffer (Bits/Buffer.v). The other three multi-bit write
+   entry points are overrides that forward to the tuple carrier's method of the same name;
+   each is the write_bits_with_offset_len instance one expects ... *)
+Theorem C11_buffer_entry_points : forall m b src,
+  (8 * blen src < two64 -> bb_write_bits m b src = bb_write_bits_ol m b src 0 (8 * blen src))
+  /\ (forall len, len < two64 -> bb_write_bits_with_len m b src len = bb_write_bits_ol m b src 0 len)
+  /\ (forall soff, soff <= 8 * blen src -> 8 * blen src < two64 ->
+        bb_write_bits_with_offset m b src soff = bb_write_bits_ol m b src soff (8 * blen src - soff)
+        /\ bb_write_bits_with_offset m b src soff = bb_write_bits_o m b src soff).
+Proof.
+  intros m b src. split; [apply bb_write_bits_eq|]. split; [intros len; apply bb_write_bits_with_len_eq|].
+  intros soff H H64. split; [apply bb_write_bits_with_offset_eq|apply bb_write_bits_with_offset_old]; assumption.
+Qed.
+
+(* ... so each of the five writes appends exactly the requested bits (or fails on a short
+   source and leaves any buffer untouched) *)
+Theorem C11_buffer_write_family : forall m b w, w5_ok w ->
+  (~ w5_fits w -> w5_apply m b w = Ok (b, Some E_INSUFFICIENT_SRC))
+  /\ (bb_inv b -> w5_fits w -> bb_wpos b + w5_len w < two63 ->
+      exists b', w5_apply m b w = Ok (b', None)
+        /\ bb_inv b' /\ bb_wpos b' = bb_wpos b + w5_len w /\ bb_rpos b' = bb_rpos b
+        /\ firstn (N.to_nat (bb_wpos b')) (bits_of_bytes (bb_buf b'))
+           = firstn (N.to_nat (bb_wpos b)) (bits_of_bytes (bb_buf b)) ++ w5_bits w).
+Proof.
+  intros m b w Hok. split; [apply w5_short; exact Hok|].
+  intros Hi Hf Hb. exact (w5_append m b w Hi Hok Hf Hb).
+Qed.
+
+(* with_write_position_at(pos, any of the five writes) that ends at or before bit_len: no
+   growth, cursors restored, and the written prefix changes by exactly the splice *)
+Theorem C11_scope_write_in_place : forall m b pos w,
+  bb_inv b -> w5_ok w -> w5_fits w -> pos + w5_len w <= bb_wpos b -> bb_wpos b < two63 ->
+  exists b', bb_with_write_position_at m b pos (fun b1 => w5_apply m b1 w) = Ok (b', None)
+    /\ bb_inv b' /\ bb_wpos b' = bb_wpos b /\ bb_rpos b' = bb_rpos b
+    /\ length (bb_buf b') = length (bb_buf b)
+    /\ firstn (N.to_nat (bb_wpos b)) (bits_of_bytes (bb_buf b'))
+       = splice (N.to_nat pos) (w5_bits w) (firstn (N.to_nat (bb_wpos b)) (bits_of_bytes (bb_buf b))).
+Proof. exact scope_write_in_place. Qed.
+
+(* a scoped write that runs past the old end is outside that theorem for a reason: the byte
+   vector stays grown and the bits behind the restored bit_len stay set, in both profiles *)
+Theorem C11_refuted_scope_write_past_end :
+  let b := {| bb_buf := [255]; bb_wpos := 8; bb_rpos := 0 |} in
+  let b' := {| bb_buf := [255; 255; 240]; bb_wpos := 8; bb_rpos := 0 |} in
+  bb_inv b
+  /\ (forall m, bb_with_write_position_at m b 4 (fun b1 => bb_write_bits m b1 [255; 255]) = Ok (b', None))
+  /\ ~ bb_inv b'.
+Proof. exact scope_write_past_end_refuted. Qed.
+
+(* every buffer reachable from default() / with_capacity(_) / from_bytes(_) by the five writes,
+   in-place scoped writes, the five reads (plain, under with_read_position_at, under
+   with_max_read), clear and reset_read_position satisfies the invariant ... *)
+Theorem C11_reachable_inv : forall m b, reachable m b -> bb_inv b.
+Proof. exact reachable_inv. Qed.
+
+(* ... one step at a time, and the state-changing steps always return *)
+Theorem C11_public_ops_step : forall m b op, bb_inv b -> bop_ok b op ->
+  (forall b', apply_bop m b op = Ok b' -> bb_inv b')
+  /\ match op with
+     | ORead _ | OScopeR _ _ | OMaxRead _ _ => True
+     | _ => exists b', apply_bop m b op = Ok b'
+     end.
+Proof.
+  intros m b op Hi Hok. split; [intros b'; exact (apply_bop_inv m b op b' Hi Hok)|exact (apply_bop_total m b op Hi Hok)].
+Qed.
+
+(* reads never touch the stored bits or the write position *)
+Theorem C11_reads_keep_bits : forall m b r b', r_apply m b r = Ok b' ->
+  bb_buf b' = bb_buf b /\ bb_wpos b' = bb_wpos b.
+Proof. exact r_apply_same. Qed.
+
+(* multi-bit reads of a BitBuffer stop at bit_len (repaired in /repo 32291cb): with fewer than
+   the requested n bits between the read position and bit_len each of the four is EndOfStream
+   (an Err: nothing changes), under the scoped combinators as anywhere else since the guard
+   only looks at the two cursors; a successful one lies inside the written bits, returns
+   exactly the stored bits [read_position, read_position + n) at the destination offset, and
+   advances the read position by n *)
+Theorem C11_buffer_reads_within_bit_len : forall m b r,
+  (bb_wpos b - bb_rpos b < m_len r -> m_read m b r = Err E_END_OF_STREAM)
+  /\ (forall dst' b',
+      Forall (fun x => x < 256) (bb_buf b) -> Forall (fun x => x < 256) (m_dst r) ->
+      (match r with MOff d o => o <= 8 * blen d | _ => True end) ->
+      bb_rpos b + m_len r < two64 -> m_off r + m_len r < two64 ->
+      m_read m b r = Ok (dst', b') ->
+      ((bb_rpos b <= bb_wpos b \/ 0 < m_len r) -> bb_rpos b + m_len r <= bb_wpos b)
+      /\ bb_rpos b' = bb_rpos b + m_len r /\ bb_buf b' = bb_buf b /\ bb_wpos b' = bb_wpos b
+      /\ bits_of_bytes dst' =
+           splice (N.to_nat (m_off r))
+             (slice (bits_of_bytes (bb_buf b)) (N.to_nat (bb_rpos b)) (N.to_nat (m_len r)))
+             (bits_of_bytes (m_dst r))
+      /\ length dst' = length (m_dst r)).
+Proof.
+  intros m b r. split; [apply m_read_short|].
+  intros dst' b'. apply m_read_exact.
+Qed.
+
+(* non-vacuity: the witness of the repaired read (one written bit, read_bits into one byte),
+   and a read that succeeds *)
+Example C11_reads_nonvacuous :
+  m_read dev_mode {| bb_buf := [128]; bb_wpos := 1; bb_rpos := 0 |} (MAll [0]) = Err E_END_OF_STREAM
+  /\ m_read dev_mode {| bb_buf := [165; 90]; bb_wpos := 13; bb_rpos := 2 |} (MOffLen [255; 255] 3 9)
+     = Ok ([242; 175], {| bb_buf := [165; 90]; bb_wpos := 13; bb_rpos := 11 |}).
+Proof. split; vm_compute; reflexivity. Qed.
+
+(* non-vacuity of the reachability statements: a run through a write, an in-place scoped
+   write at an aligned position before the end, and a read *)
+Example C11_nonvacuous_surface :
+  reachable dev_mode {| bb_buf := [0; 165; 34]; bb_wpos := 24; bb_rpos := 8 |}
+  /\ bop_ok {| bb_buf := [0; 17; 34]; bb_wpos := 24; bb_rpos := 0 |} (OScopeW 8 (W5All [165]))
+  /\ apply_bop dev_mode {| bb_buf := [0; 17; 34]; bb_wpos := 24; bb_rpos := 0 |} (OScopeW 8 (W5All [165]))
+     = Ok {| bb_buf := [0; 165; 34]; bb_wpos := 24; bb_rpos := 0 |}.
+Proof.
+  assert (K1 : bop_ok bb_empty (OWrite (W5All [0; 17; 34]))).
+  { cbn [bop_ok w5_ok w5_src w5_off w5_len]. repeat split; try (repeat constructor; reflexivity); vm_compute; reflexivity. }
+  assert (K2 : bop_ok {| bb_buf := [0; 17; 34]; bb_wpos := 24; bb_rpos := 0 |} (OScopeW 8 (W5All [165]))).
+  { cbn [bop_ok w5_ok w5_src w5_off w5_len]. repeat split; try (repeat constructor; reflexivity); vm_compute; congruence. }
+  split; [|split; [exact K2|vm_compute; reflexivity]].
+  apply (reach_step dev_mode {| bb_buf := [0; 165; 34]; bb_wpos := 24; bb_rpos := 0 |} (ORead (RMulti (MAll [0]))));
+    [|exact I|vm_compute; reflexivity].
+  apply (reach_step dev_mode {| bb_buf := [0; 17; 34]; bb_wpos := 24; bb_rpos := 0 |} (OScopeW 8 (W5All [165])));
+    [|exact K2|vm_compute; reflexivity].
+  apply (reach_step dev_mode bb_empty (OWrite (W5All [0; 17; 34]))); [apply reach_empty|exact K1|vm_compute; reflexivity].
+Qed.
+
 (* non-vacuity: the witness of the repaired defect (bits after the copied range survive),
    satisfiable instances of the hypotheses of the copy theorems, and a run of write
    operations (the last one fails with InsufficientSource and is ignored) *)
@@ -162,3 +298,11 @@ Print Assumptions C11_read_mirror.
 Print Assumptions C11_buffer_inv_step.
 Print Assumptions C11_buffer_inv.
 Print Assumptions C11_buffer_refines.
+Print Assumptions C11_buffer_entry_points.
+Print Assumptions C11_buffer_write_family.
+Print Assumptions C11_scope_write_in_place.
+Print Assumptions C11_refuted_scope_write_past_end.
+Print Assumptions C11_reachable_inv.
+Print Assumptions C11_public_ops_step.
+Print Assumptions C11_reads_keep_bits.
+Print Assumptions C11_buffer_reads_within_bit_len.
